@@ -1,0 +1,376 @@
+//go:build verif
+
+// Contracts for the deductive checker in /verif (govc). Comment-only; ignored without the
+// "verif" build tag.
+//
+// Ghost state of the pos module (typed views of the pos KVStore):
+//   pos.vals[a], pos.has[a]     the validator record stored under address a
+//   pos.idx[a][p]               the power index holds an entry for address a under power p
+//   pos.queue[t][a]             the unstaking queue lists a under completion time t
+//   pos.sinfo / pos.sinfohas    signing info;  pos.missed[a][i] the missed-block ring
+//   pos.awards[a], pos.burns[a] queued awards (Int) and burns (Dec, raw)
+//   pos.stakesum                sum of StakedTokens over records whose status is not Unstaked
+// The 3-6 line storage accessors (key construction + amino + KVStore) carry ASSUMED contracts
+// in terms of these views; everything built on them is verified.
+
+package keeper
+
+//@ ghost pos.vals (Array Bytes $x/pos/types.Validator)
+//@ ghost pos.has (Array Bytes Bool)
+//@ ghost pos.idx (Array Bytes (Array Int Bool))
+//@ ghost pos.queue (Array Int (Array Bytes Bool))
+//@ ghost pos.sinfo (Array Bytes $x/pos/types.ValidatorSigningInfo)
+//@ ghost pos.sinfohas (Array Bytes Bool)
+//@ ghost pos.missed (Array Bytes (Array Int Bool))
+//@ ghost pos.awards (Array Bytes Int)
+//@ ghost pos.burns (Array Bytes Int)
+//@ ghost pos.stakesum Int
+
+// records are stored under their own address, and a validator's consensus key hashes to it
+//@ invariant valinv: forall a Bytes :: pos.has[a] ==> pos.vals[a].Address == a && pk_addr(pos.vals[a].PublicKey) == a && val(pos.vals[a].StakedTokens) >= 0
+// C06/C05: the power index lists exactly the staked, unjailed validators, under their current power
+//@ invariant idxinv: forall a Bytes, p int :: pos.idx[a][p] <==> (pos.has[a] && pos.vals[a].Status == 2 && !pos.vals[a].Jailed && p == val(pos.vals[a].StakedTokens) / 1000000)
+// C06: every unstaking validator is queued at its completion time (and nothing else is queued)
+//@ invariant queueinv: forall t int, a Bytes :: pos.queue[t][a] <==> (pos.has[a] && pos.vals[a].Status == 1 && pos.vals[a].UnstakingCompletionTime == t)
+// C06: every validator that is not unstaked holds at least the minimum stake; unstaked ones hold nothing
+//@ invariant mininv: forall a Bytes :: pos.has[a] ==> (pos.vals[a].Status != 0 ==> val(pos.vals[a].StakedTokens) >= pp_minstake) && (pos.vals[a].Status == 0 ==> val(pos.vals[a].StakedTokens) == 0)
+
+// ---------------------------------------------------------------- storage accessors (assumed)
+
+//@ assumed func (k Keeper) GetValidator(ctx sdk.Ctx, addr sdk.Address) (validator types.Validator, found bool)
+//@   mode value
+//@   ensures found == pos.has[addr] && (found ==> validator == pos.vals[addr])
+//@ assumed func (k Keeper) SetValidator(ctx sdk.Ctx, validator types.Validator)
+//@   mode value
+//@   modifies pos.vals[validator.Address], pos.has[validator.Address], pos.stakesum
+//@   ensures pos.vals[validator.Address] == validator && pos.has[validator.Address]
+//@   ensures pos.stakesum == old(pos.stakesum) - ite(old(pos.has[validator.Address]) && old(pos.vals[validator.Address]).Status != 0, val(old(pos.vals[validator.Address]).StakedTokens), 0) + ite(validator.Status != 0, val(validator.StakedTokens), 0)
+//@ assumed func (k Keeper) DeleteValidator(ctx sdk.Ctx, addr sdk.Address)
+//@   mode value
+//@   modifies pos.has[addr], pos.stakesum
+//@   ensures !pos.has[addr]
+//@   ensures pos.stakesum == old(pos.stakesum) - ite(old(pos.has[addr]) && old(pos.vals[addr]).Status != 0, val(old(pos.vals[addr]).StakedTokens), 0)
+//@ assumed func (k Keeper) SetStakedValidator(ctx sdk.Ctx, validator types.Validator)
+//@   mode value
+//@   modifies pos.idx[validator.Address]
+//@   ensures (validator.Jailed || validator.Status != 2) ==> pos.idx[validator.Address] == old(pos.idx[validator.Address])
+//@   ensures !validator.Jailed && validator.Status == 2 ==> pos.idx[validator.Address] == upd(old(pos.idx[validator.Address]), val(validator.StakedTokens) / 1000000, true)
+//@ assumed func (k Keeper) deleteValidatorFromStakingSet(ctx sdk.Ctx, validator types.Validator)
+//@   mode value
+//@   modifies pos.idx[validator.Address]
+//@   ensures pos.idx[validator.Address] == upd(old(pos.idx[validator.Address]), val(validator.StakedTokens) / 1000000, false)
+//@ assumed func (k Keeper) SetUnstakingValidator(ctx sdk.Ctx, val types.Validator)
+//@   mode value
+//@   modifies pos.queue[val.UnstakingCompletionTime]
+//@   ensures pos.queue[val.UnstakingCompletionTime] == upd(old(pos.queue[val.UnstakingCompletionTime]), val.Address, true)
+//@ assumed func (k Keeper) deleteUnstakingValidator(ctx sdk.Ctx, val types.Validator)
+//@   mode value
+//@   modifies pos.queue[val.UnstakingCompletionTime]
+//@   ensures pos.queue[val.UnstakingCompletionTime] == upd(old(pos.queue[val.UnstakingCompletionTime]), val.Address, false)
+//@ assumed func (k Keeper) GetValidatorSigningInfo(ctx sdk.Ctx, address sdk.Address) (info types.ValidatorSigningInfo, found bool)
+//@   mode value
+//@   ensures found == pos.sinfohas[address] && (found ==> info == pos.sinfo[address])
+//@ assumed func (k Keeper) SetValidatorSigningInfo(ctx sdk.Ctx, address sdk.Address, info types.ValidatorSigningInfo)
+//@   mode value
+//@   modifies pos.sinfo[address], pos.sinfohas[address]
+//@   ensures pos.sinfo[address] == info && pos.sinfohas[address]
+//@ assumed func (k Keeper) getMissedBlockArray(ctx sdk.Ctx, address sdk.Address, index int64) (missed bool)
+//@   mode value
+//@   ensures missed == pos.missed[address][index]
+//@ assumed func (k Keeper) SetMissedBlockArray(ctx sdk.Ctx, address sdk.Address, index int64, missed bool)
+//@   mode value
+//@   modifies pos.missed[address]
+//@   ensures pos.missed[address] == upd(old(pos.missed[address]), index, missed)
+//@ assumed func (k Keeper) clearMissedArray(ctx sdk.Ctx, address sdk.Address)
+//@   mode value
+//@   modifies pos.missed[address]
+//@   ensures forall i int :: !pos.missed[address][i]
+//@ assumed func (k Keeper) getValidatorAward(ctx sdk.Ctx, address sdk.Address) (coins sdk.Int, found bool)
+//@   mode value
+//@   ensures val(coins) == pos.awards[address]
+//@ assumed func (k Keeper) setValidatorAward(ctx sdk.Ctx, amount sdk.Int, address sdk.Address)
+//@   mode value
+//@   modifies pos.awards[address]
+//@   ensures pos.awards[address] == val(amount)
+//@ assumed func (k Keeper) getValidatorBurn(ctx sdk.Ctx, address sdk.Address) (coins sdk.Dec, found bool)
+//@   mode value
+//@   ensures val(coins) == pos.burns[address]
+//@ assumed func (k Keeper) setValidatorBurn(ctx sdk.Ctx, amount sdk.Dec, address sdk.Address)
+//@   mode value
+//@   modifies pos.burns[address]
+//@   ensures pos.burns[address] == val(amount)
+//@ assumed func (k Keeper) getPubKeyRelation(ctx sdk.Ctx, address crypto.Address) (pk posCrypto.PublicKey, err error)
+//@   mode value
+//@   ensures (err == nil) == pkrel_ok(address)
+//@   ensures err == nil ==> pk == pkrel(address) && pk != nil
+//@ assumed func (k Keeper) AddPubKeyRelation(ctx sdk.Ctx, pubkey posCrypto.PublicKey)
+//@   mode value
+//@   ensures true
+
+// parameters (Subspace lookups; constant while a function runs)
+//@ assumed func (k Keeper) MinimumStake(ctx sdk.Ctx) (res int64)
+//@   mode value
+//@   ensures res == pp_minstake
+//@ assumed func (k Keeper) StakeDenom(ctx sdk.Ctx) (res string)
+//@   mode value
+//@   ensures res == pp_denom && denom_ok(res)
+//@ assumed func (k Keeper) UnStakingTime(ctx sdk.Ctx) (res time.Duration)
+//@   mode value
+//@   ensures res == pp_unstaking_time
+//@ assumed func (k Keeper) MaxEvidenceAge(ctx sdk.Ctx) (res time.Duration)
+//@   mode value
+//@   ensures res == pp_max_evidence_age
+//@ assumed func (k Keeper) SignedBlocksWindow(ctx sdk.Ctx) (res int64)
+//@   mode value
+//@   ensures res == pp_window
+//@ assumed func (k Keeper) MinSignedPerWindow(ctx sdk.Ctx) (res int64)
+//@   mode value
+//@   ensures res == rhe(pp_minsigned_raw * pp_window, pow10(18))
+//@ assumed func (k Keeper) DowntimeJailDuration(ctx sdk.Ctx) (res time.Duration)
+//@   mode value
+//@   ensures res == pp_downtime_jail
+//@ assumed func (k Keeper) SlashFractionDoubleSign(ctx sdk.Ctx) (res sdk.Dec)
+//@   mode value
+//@   ensures val(res) == pp_slash_doublesign
+//@ assumed func (k Keeper) SlashFractionDowntime(ctx sdk.Ctx) (res sdk.Dec)
+//@   mode value
+//@   ensures val(res) == pp_slash_downtime
+//@ assumed func (k Keeper) MaxValidators(ctx sdk.Ctx) (res uint64)
+//@   mode value
+//@   ensures res == pp_max_validators
+//@ assumed func (k Keeper) ProposerRewardPercentage(ctx sdk.Ctx) (res int8)
+//@   mode value
+//@   ensures true
+
+// ---------------------------------------------------------------- pool.go (verified)
+
+// C07/C02: burnStakedTokens removes exactly amt of the stake denomination from the staked pool and from the supply
+//@ func (k Keeper) burnStakedTokens(ctx sdk.Ctx, amt sdk.Int) (err sdk.Error)
+//@   props C07 C04 C02
+//@   uses bankinv
+//@   modifies acct.id, acct.next, acct.coins, acct.addr, auth.bal[modaddr("staked_tokens_pool")], auth.has[modaddr("staked_tokens_pool")], auth.supply
+//@   ensures err == nil ==> val(amt) > 0
+//@   ensures [success] val(amt) > 0 && modreg("staked_tokens_pool") && modperm("staked_tokens_pool", "burner") && amt(old(auth.bal[modaddr("staked_tokens_pool")]), pp_denom) >= val(amt) ==> err == nil
+//@   ensures err == nil ==> amt(auth.bal[modaddr("staked_tokens_pool")], pp_denom) == amt(old(auth.bal[modaddr("staked_tokens_pool")]), pp_denom) - val(amt) && amt(auth.supply, pp_denom) == amt(old(auth.supply), pp_denom) - val(amt)
+//@   ensures err == nil ==> (forall d Str :: d != pp_denom ==> amt(auth.bal[modaddr("staked_tokens_pool")], d) == amt(old(auth.bal[modaddr("staked_tokens_pool")]), d) && amt(auth.supply, d) == amt(old(auth.supply), d))
+//@   ensures err != nil ==> auth.bal[modaddr("staked_tokens_pool")] == old(auth.bal[modaddr("staked_tokens_pool")]) && auth.supply == old(auth.supply)
+//@
+// C04: staking moves exactly `amount` from the validator's account into the pool (or panics)
+//@ func (k Keeper) coinsFromUnstakedToStaked(ctx sdk.Ctx, validator types.Validator, amount sdk.Int)
+//@   props C04 C02
+//@   uses bankinv
+//@   requires validator.Address != modaddr("staked_tokens_pool")
+//@   modifies acct.id, acct.next, acct.coins, acct.addr, auth.bal[modaddr("staked_tokens_pool")], auth.has[modaddr("staked_tokens_pool")], auth.bal[validator.Address], auth.has[validator.Address]
+//@   ensures amt(auth.bal[modaddr("staked_tokens_pool")], pp_denom) == amt(old(auth.bal[modaddr("staked_tokens_pool")]), pp_denom) + val(amount)
+//@   ensures amt(auth.bal[validator.Address], pp_denom) == amt(old(auth.bal[validator.Address]), pp_denom) - val(amount)
+//@   ensures auth.supply == old(auth.supply)
+//@
+// C04: finishing an unstake moves exactly the recorded stake back
+//@ func (k Keeper) coinsFromStakedToUnstaked(ctx sdk.Ctx, validator types.Validator)
+//@   props C04 C02
+//@   uses bankinv
+//@   requires validator.Address != modaddr("staked_tokens_pool")
+//@   modifies acct.id, acct.next, acct.coins, acct.addr, auth.bal[modaddr("staked_tokens_pool")], auth.has[modaddr("staked_tokens_pool")], auth.bal[validator.Address], auth.has[validator.Address]
+//@   ensures amt(auth.bal[modaddr("staked_tokens_pool")], pp_denom) == amt(old(auth.bal[modaddr("staked_tokens_pool")]), pp_denom) - val(validator.StakedTokens)
+//@   ensures amt(auth.bal[validator.Address], pp_denom) == amt(old(auth.bal[validator.Address]), pp_denom) + val(validator.StakedTokens)
+//@   ensures auth.supply == old(auth.supply)
+
+// ---------------------------------------------------------------- valStaked.go, valStateChanges.go (verified)
+
+// removeValidatorTokens: the record loses exactly tokensToRemove, its index entry moves to the new power
+//@ func (k Keeper) removeValidatorTokens(ctx sdk.Ctx, v types.Validator, tokensToRemove sdk.Int) (r types.Validator)
+//@   props C07 C05 C06
+//@   uses valinv idxinv
+//@   requires pos.has[v.Address] && pos.vals[v.Address] == v
+//@   modifies pos.vals[v.Address], pos.has[v.Address], pos.idx[v.Address], pos.stakesum
+//@   ensures pos.has[v.Address] && r == pos.vals[v.Address]
+//@   ensures r.Address == v.Address && r.PublicKey == v.PublicKey && r.Status == v.Status && r.Jailed == v.Jailed && r.UnstakingCompletionTime == v.UnstakingCompletionTime
+//@   ensures val(r.StakedTokens) == val(v.StakedTokens) - val(tokensToRemove) && 0 <= val(tokensToRemove) && val(tokensToRemove) <= val(v.StakedTokens)
+//@   ensures pos.stakesum == old(pos.stakesum) - ite(v.Status != 0, val(tokensToRemove), 0)
+//@
+// C06: staking is allowed only for an unstaked validator, with at least the minimum, funded from its own balance
+//@ func (k Keeper) ValidateValidatorStaking(ctx sdk.Ctx, validator types.Validator, amount sdk.Int) (err sdk.Error)
+//@   props C06 C04
+//@   uses bankinv
+//@   modifies acct.id, acct.next, acct.coins, acct.addr
+//@   ensures err == nil ==> validator.Status == 0 && val(amount) >= pp_minstake && amt(auth.bal[validator.Address], pp_denom) >= val(amount) && val(amount) >= 0
+//@
+// C04/C06: StakeValidator moves exactly `amount` into the pool, records exactly that much more stake,
+// sets status Staked and (if not jailed) the index entry under the new power
+//@ func (k Keeper) StakeValidator(ctx sdk.Ctx, validator types.Validator, amount sdk.Int)
+//@   props C04 C06 C05
+//@   uses bankinv valinv idxinv queueinv mininv
+//@   requires validator.Address != modaddr("staked_tokens_pool") && len(validator.Address) == 20
+//@   requires validator.Status == 0 && val(validator.StakedTokens) == 0 && val(amount) >= pp_minstake && pp_minstake >= 0 && pk_addr(validator.PublicKey) == validator.Address
+//@   requires pos.has[validator.Address] ==> pos.vals[validator.Address] == validator
+//@   requires !pos.has[validator.Address] ==> (forall p int :: !pos.idx[validator.Address][p])
+//@   modifies acct.id, acct.next, acct.coins, acct.addr, auth.bal[modaddr("staked_tokens_pool")], auth.has[modaddr("staked_tokens_pool")], auth.bal[validator.Address], auth.has[validator.Address]
+//@   modifies pos.vals[validator.Address], pos.has[validator.Address], pos.idx[validator.Address], pos.stakesum, pos.sinfo[validator.Address], pos.sinfohas[validator.Address]
+//@   ensures pos.has[validator.Address] && pos.vals[validator.Address].Status == 2 && val(pos.vals[validator.Address].StakedTokens) == val(amount)
+//@   ensures pos.vals[validator.Address].Jailed == validator.Jailed && pos.vals[validator.Address].Address == validator.Address
+//@   ensures amt(auth.bal[modaddr("staked_tokens_pool")], pp_denom) == amt(old(auth.bal[modaddr("staked_tokens_pool")]), pp_denom) + val(amount)
+//@   ensures amt(auth.bal[validator.Address], pp_denom) == amt(old(auth.bal[validator.Address]), pp_denom) - val(amount)
+//@   ensures amt(auth.bal[modaddr("staked_tokens_pool")], pp_denom) - pos.stakesum == old(amt(auth.bal[modaddr("staked_tokens_pool")], pp_denom) - pos.stakesum)
+//@   ensures auth.supply == old(auth.supply) && pos.sinfohas[validator.Address]
+//@
+//@ func (k Keeper) ValidateValidatorBeginUnstaking(ctx sdk.Ctx, validator types.Validator) (err sdk.Error)
+//@   props C06
+//@   ensures err == nil ==> validator.Status == 2 && val(validator.StakedTokens) >= pp_minstake
+//@
+// C06: begin-unstake: status Unstaking, completion time = block time + UnstakingTime, queued there, index entry removed
+//@ func (k Keeper) BeginUnstakingValidator(ctx sdk.Ctx, validator types.Validator) (err sdk.Error)
+//@   props C06 C05
+//@   uses valinv idxinv queueinv mininv
+//@   requires pos.has[validator.Address] && pos.vals[validator.Address] == validator && validator.Status == 2
+//@   modifies pos.vals[validator.Address], pos.has[validator.Address], pos.idx[validator.Address], pos.stakesum, pos.queue[ctx_time(ctx) + pp_unstaking_time]
+//@   ensures err == nil
+//@   ensures pos.vals[validator.Address].Status == 1 && pos.vals[validator.Address].UnstakingCompletionTime == ctx_time(ctx) + pp_unstaking_time
+//@   ensures pos.queue[ctx_time(ctx) + pp_unstaking_time][validator.Address]
+//@   ensures val(pos.vals[validator.Address].StakedTokens) == val(validator.StakedTokens) && pos.stakesum == old(pos.stakesum)
+//@
+//@ func (k Keeper) ValidateValidatorFinishUnstaking(ctx sdk.Ctx, validator types.Validator) (err sdk.Error)
+//@   props C06
+//@   ensures err == nil ==> validator.Status == 1 && val(validator.StakedTokens) >= pp_minstake
+//@
+// C04/C06: finishing pays the whole recorded stake back to the validator's account and marks it Unstaked with 0 tokens
+//@ func (k Keeper) FinishUnstakingValidator(ctx sdk.Ctx, validator types.Validator) (err sdk.Error)
+//@   props C04 C06
+//@   uses bankinv valinv idxinv queueinv mininv
+//@   requires pos.has[validator.Address] && pos.vals[validator.Address] == validator && validator.Status == 1
+//@   requires validator.Address != modaddr("staked_tokens_pool") && val(validator.StakedTokens) <= 9223372036854775807
+//@   modifies acct.id, acct.next, acct.coins, acct.addr, auth.bal[modaddr("staked_tokens_pool")], auth.has[modaddr("staked_tokens_pool")], auth.bal[validator.Address], auth.has[validator.Address]
+//@   modifies pos.vals[validator.Address], pos.has[validator.Address], pos.stakesum, pos.queue[validator.UnstakingCompletionTime]
+//@   ensures err == nil && pos.vals[validator.Address].Status == 0 && val(pos.vals[validator.Address].StakedTokens) == 0
+//@   ensures amt(auth.bal[validator.Address], pp_denom) == amt(old(auth.bal[validator.Address]), pp_denom) + val(validator.StakedTokens)
+//@   ensures amt(auth.bal[modaddr("staked_tokens_pool")], pp_denom) - pos.stakesum == old(amt(auth.bal[modaddr("staked_tokens_pool")], pp_denom) - pos.stakesum)
+//@   ensures auth.supply == old(auth.supply)
+//@
+// C07/C06: a forced unstake burns the whole remaining stake from pool and supply and leaves the record Unstaked with 0 tokens
+//@ func (k Keeper) ForceValidatorUnstake(ctx sdk.Ctx, validator types.Validator) (err sdk.Error)
+//@   props C07 C06 C04 C05
+//@   uses bankinv valinv idxinv queueinv
+//@   requires pos.has[validator.Address] && pos.vals[validator.Address] == validator && (validator.Status != 0 || val(validator.StakedTokens) == 0)
+//@   requires modreg("staked_tokens_pool") && modperm("staked_tokens_pool", "burner") && amt(auth.bal[modaddr("staked_tokens_pool")], pp_denom) >= val(validator.StakedTokens)   // C04: the pool backs the stake
+//@   modifies acct.id, acct.next, acct.coins, acct.addr, auth.bal[modaddr("staked_tokens_pool")], auth.has[modaddr("staked_tokens_pool")], auth.supply
+//@   modifies pos.vals[validator.Address], pos.has[validator.Address], pos.idx[validator.Address], pos.stakesum, pos.queue[validator.UnstakingCompletionTime]
+//@   dead ret1
+//@   ensures [unstaked] err == nil && pos.has[validator.Address] && pos.vals[validator.Address].Status == 0 && val(pos.vals[validator.Address].StakedTokens) == 0
+//@   ensures [burned] amt(auth.supply, pp_denom) == amt(old(auth.supply), pp_denom) - val(validator.StakedTokens) && amt(auth.bal[modaddr("staked_tokens_pool")], pp_denom) == amt(old(auth.bal[modaddr("staked_tokens_pool")]), pp_denom) - val(validator.StakedTokens)
+//@   ensures [backed] amt(auth.bal[modaddr("staked_tokens_pool")], pp_denom) - pos.stakesum == old(amt(auth.bal[modaddr("staked_tokens_pool")], pp_denom) - pos.stakesum)
+//@
+// C09: jailing removes the index entry; unjailing restores it under the current power
+//@ func (k Keeper) JailValidator(ctx sdk.Ctx, addr sdk.Address)
+//@   props C09 C05
+//@   uses valinv idxinv queueinv mininv
+//@   modifies pos.vals[addr], pos.has[addr], pos.idx[addr], pos.stakesum
+//@   ensures old(pos.has[addr]) && !old(pos.vals[addr]).Jailed && pos.has[addr] && pos.vals[addr].Jailed
+//@   ensures pos.vals[addr].Status == old(pos.vals[addr]).Status && pos.vals[addr].StakedTokens == old(pos.vals[addr]).StakedTokens && pos.stakesum == old(pos.stakesum)
+//@   ensures forall p int :: !pos.idx[addr][p]
+//@
+//@ func (k Keeper) UnjailValidator(ctx sdk.Ctx, addr sdk.Address)
+//@   props C09 C05
+//@   uses valinv idxinv queueinv mininv
+//@   modifies pos.vals[addr], pos.has[addr], pos.idx[addr], pos.stakesum
+//@   ensures old(pos.has[addr]) && old(pos.vals[addr]).Jailed && pos.has[addr] && !pos.vals[addr].Jailed
+//@   ensures pos.vals[addr].Status == old(pos.vals[addr]).Status && pos.vals[addr].StakedTokens == old(pos.vals[addr]).StakedTokens && pos.stakesum == old(pos.stakesum)
+//@   ensures pos.vals[addr].Status == 2 ==> pos.idx[addr][val(pos.vals[addr].StakedTokens) / 1000000]
+
+// ---------------------------------------------------------------- slash.go (verified)
+
+// validateSlash: a non-empty validator is returned only for a non-negative factor, a past or present
+// infraction height, and a known validator that is not unstaked; it then is the stored record.
+//@ func (k Keeper) validateSlash(ctx sdk.Ctx, address sdk.Address, infractionHeight int64, power int64, slashFactor sdk.Dec) (v types.Validator, err error)
+//@   props C07
+//@   uses valinv
+//@   requires pp_unstaking_time >= 0 && address != nil
+//@   ensures err == nil && v.Address != nil ==> val(slashFactor) >= 0 && infractionHeight <= ctx_height(ctx) && pos.has[address] && v == pos.vals[address] && v.Status != 0
+//@   ensures err == nil && v.Address == nil ==> !pos.has[address]
+//@   ensures err != nil ==> val(slashFactor) < 0 || infractionHeight > ctx_height(ctx) || (pos.has[address] && pos.vals[address].Status == 0)
+//@
+// C07: slash removes exactly min(trunc(power * 10^6 * f), stake) (clamped at 0, which only matters for a negative product) from the record, the staked pool and the supply;
+// if what remains is below the minimum stake the validator is force-unstaked and the remainder burned too.
+// A slash that is not applicable (negative factor, future height, unknown or unstaked validator) changes nothing.
+//@ func (k Keeper) slash(ctx sdk.Ctx, address sdk.Address, infractionHeight, power int64, slashFactor sdk.Dec) (err sdk.Error)
+//@   props C07 C04 C02 C05 C06
+//@   uses bankinv valinv idxinv queueinv mininv
+//@   requires pp_unstaking_time >= 0 && pp_minstake >= 0 && address != nil && power >= 0 && val(slashFactor) <= pow10(18)
+//@   requires modreg("staked_tokens_pool") && modperm("staked_tokens_pool", "burner") && (pos.has[address] ==> amt(auth.bal[modaddr("staked_tokens_pool")], pp_denom) >= val(pos.vals[address].StakedTokens))   // C04: the pool backs the stake
+//@   modifies acct.id, acct.next, acct.coins, acct.addr, auth.bal[modaddr("staked_tokens_pool")], auth.has[modaddr("staked_tokens_pool")], auth.supply
+//@   modifies pos.vals[address], pos.has[address], pos.idx[address], pos.stakesum, pos.queue[pos.vals[address].UnstakingCompletionTime]
+//@   dead ret4
+//@   instance rhe_scaled(power * 1000000, val(slashFactor))
+//@   ensures [noop] (val(slashFactor) < 0 || infractionHeight > ctx_height(ctx) || !old(pos.has[address]) || old(pos.vals[address]).Status == 0) ==> err != nil && pos.vals[address] == old(pos.vals[address]) && pos.has[address] == old(pos.has[address]) && auth.supply == old(auth.supply) && auth.bal[modaddr("staked_tokens_pool")] == old(auth.bal[modaddr("staked_tokens_pool")]) && pos.stakesum == old(pos.stakesum)
+//@   ensures [backed] amt(auth.bal[modaddr("staked_tokens_pool")], pp_denom) - pos.stakesum == old(amt(auth.bal[modaddr("staked_tokens_pool")], pp_denom) - pos.stakesum)
+//@   ensures [supply] amt(auth.supply, pp_denom) - amt(auth.bal[modaddr("staked_tokens_pool")], pp_denom) == old(amt(auth.supply, pp_denom) - amt(auth.bal[modaddr("staked_tokens_pool")], pp_denom))
+//@   ensures [present] err == nil ==> old(pos.has[address]) && pos.has[address]
+//@   ensures [amount_keep] err == nil && old(val(pos.vals[address].StakedTokens)) - max(min((power * 1000000 * val(slashFactor)) / pow10(18), old(val(pos.vals[address].StakedTokens))), 0) >= pp_minstake
+//@          ==> val(pos.vals[address].StakedTokens) == old(val(pos.vals[address].StakedTokens)) - max(min((power * 1000000 * val(slashFactor)) / pow10(18), old(val(pos.vals[address].StakedTokens))), 0) && pos.vals[address].Status == old(pos.vals[address]).Status
+//@   ensures [amount_force] err == nil && old(val(pos.vals[address].StakedTokens)) - max(min((power * 1000000 * val(slashFactor)) / pow10(18), old(val(pos.vals[address].StakedTokens))), 0) < pp_minstake
+//@          ==> val(pos.vals[address].StakedTokens) == 0 && pos.vals[address].Status == 0
+//@   ensures [burnt] err == nil ==> amt(old(auth.supply), pp_denom) - amt(auth.supply, pp_denom) == old(val(pos.vals[address].StakedTokens)) - val(pos.vals[address].StakedTokens)
+//@
+// C07/C09: validateDoubleSign accepts evidence only inside the evidence window, against a known,
+// not unstaked, not tombstoned validator with signing info
+//@ func (k Keeper) validateDoubleSign(ctx sdk.Ctx, addr crypto.Address, infractionHeight int64, timestamp time.Time) (address sdk.Address, signInfo types.ValidatorSigningInfo, validator exported.ValidatorI, err sdk.Error)
+//@   props C07 C09
+//@   uses valinv
+//@   requires abs(ctx_time(ctx)) < pow2(62) && abs(timestamp) < pow2(62)
+//@   ensures [accepted] err == nil && validator != nil ==> pos.has[addr] && pos.vals[addr].Status != 0 && pos.sinfohas[addr] && !pos.sinfo[addr].Tombstoned && signInfo == pos.sinfo[addr] && address == addr
+//@   ensures [window] err == nil && validator != nil ==> ctx_time(ctx) - timestamp <= pp_max_evidence_age
+//@   ensures [ignored] err == nil && validator == nil ==> ctx_time(ctx) - timestamp > pp_max_evidence_age
+//@
+// C08: one expected-to-sign block: ring slot (offset mod window) := missed, counter adjusted by exactly the change of
+// that slot, and punishment (slash + jail + window reset) exactly when past start height + window, over the
+// threshold, known and not jailed
+//@ func (k Keeper) handleValidatorSignature(ctx sdk.Ctx, addr crypto.Address, power int64, signed bool)
+//@   props C08
+//@   uses bankinv valinv idxinv queueinv mininv
+//@   requires pp_window > 0 && pp_unstaking_time >= 0 && pp_minstake >= 0 && addr != nil && power >= 0 && 0 <= pp_slash_downtime && pp_slash_downtime <= pow10(18)
+//@   requires pos.sinfohas[addr] ==> pos.sinfo[addr].IndexOffset >= 0 && pos.sinfo[addr].IndexOffset < 9223372036854775807 && pos.sinfo[addr].MissedBlocksCounter >= 0 && pos.sinfo[addr].MissedBlocksCounter < 9223372036854775807
+//@   requires 0 <= pos.sinfo[addr].StartHeight && pos.sinfo[addr].StartHeight + pp_window <= 9223372036854775807 && 0 <= rhe(pp_minsigned_raw * pp_window, pow10(18)) && rhe(pp_minsigned_raw * pp_window, pow10(18)) <= pp_window
+//@   modifies acct.id, acct.next, acct.coins, acct.addr, auth.bal[modaddr("staked_tokens_pool")], auth.has[modaddr("staked_tokens_pool")], auth.supply
+//@   requires modreg("staked_tokens_pool") && modperm("staked_tokens_pool", "burner") && (pos.has[addr] ==> amt(auth.bal[modaddr("staked_tokens_pool")], pp_denom) >= val(pos.vals[addr].StakedTokens))   // C04: the pool backs the stake
+//@   modifies pos.vals[addr], pos.has[addr], pos.idx[addr], pos.stakesum, pos.sinfo[addr], pos.sinfohas[addr], pos.missed[addr], pos.queue[pos.vals[addr].UnstakingCompletionTime]
+//@   ensures [counter] pos.sinfo[addr].MissedBlocksCounter == 0 || pos.sinfo[addr].MissedBlocksCounter == old(pos.sinfo[addr].MissedBlocksCounter) + ite(!signed, 1, 0) - ite(old(pos.missed[addr][old(pos.sinfo[addr].IndexOffset) % pp_window]), 1, 0)
+//@   ensures [punished] (ctx_height(ctx) > old(pos.sinfo[addr].StartHeight) + pp_window
+//@        && old(pos.sinfo[addr].MissedBlocksCounter) + ite(!signed, 1, 0) - ite(old(pos.missed[addr][old(pos.sinfo[addr].IndexOffset) % pp_window]), 1, 0) > pp_window - rhe(pp_minsigned_raw * pp_window, pow10(18))
+//@        && old(pos.has[addr]) && !old(pos.vals[addr]).Jailed)
+//@      ==> pos.sinfo[addr].MissedBlocksCounter == 0 && pos.sinfo[addr].IndexOffset == 0 && (forall i int :: !pos.missed[addr][i]) && pos.sinfo[addr].JailedUntil == ctx_time(ctx) + pp_downtime_jail && (pos.has[addr] ==> pos.vals[addr].Jailed)
+//@   ensures [notpunished] !(ctx_height(ctx) > old(pos.sinfo[addr].StartHeight) + pp_window
+//@        && old(pos.sinfo[addr].MissedBlocksCounter) + ite(!signed, 1, 0) - ite(old(pos.missed[addr][old(pos.sinfo[addr].IndexOffset) % pp_window]), 1, 0) > pp_window - rhe(pp_minsigned_raw * pp_window, pow10(18))
+//@        && old(pos.has[addr]) && !old(pos.vals[addr]).Jailed)
+//@      ==> pos.sinfo[addr].IndexOffset == old(pos.sinfo[addr].IndexOffset) + 1 && pos.missed[addr] == upd(old(pos.missed[addr]), old(pos.sinfo[addr].IndexOffset) % pp_window, !signed)
+//@          && pos.sinfo[addr].MissedBlocksCounter == old(pos.sinfo[addr].MissedBlocksCounter) + ite(!signed, 1, 0) - ite(old(pos.missed[addr][old(pos.sinfo[addr].IndexOffset) % pp_window]), 1, 0)
+//@          && pos.vals[addr] == old(pos.vals[addr]) && auth.supply == old(auth.supply) && pos.sinfo[addr].JailedUntil == old(pos.sinfo[addr].JailedUntil) && pos.sinfo[addr].Tombstoned == old(pos.sinfo[addr].Tombstoned) && pos.sinfo[addr].StartHeight == old(pos.sinfo[addr].StartHeight)
+
+// ---------------------------------------------------------------- reward.go (verified)
+
+// C10: an award queued for an address accumulates
+//@ func (k Keeper) AwardCoinsTo(ctx sdk.Ctx, amount sdk.Int, address sdk.Address)
+//@   props C10
+//@   modifies pos.awards[address]
+//@   ensures pos.awards[address] == old(pos.awards[address]) + val(amount)
+//@
+// C10/C02/C04: minting an award creates exactly `amount` new tokens, all of which end up with the
+// recipient; the staked pool is only a conduit and keeps its balance
+//@ func (k Keeper) mint(ctx sdk.Ctx, amount sdk.Int, address sdk.Address) (res sdk.Result)
+//@   props C10 C02 C04
+//@   uses bankinv
+//@   requires address != modaddr("staked_tokens_pool") && val(amount) >= 0
+//@   modifies acct.id, acct.next, acct.coins, acct.addr, auth.bal[modaddr("staked_tokens_pool")], auth.has[modaddr("staked_tokens_pool")], auth.bal[address], auth.has[address], auth.supply
+//@   ensures [supply] amt(auth.supply, pp_denom) - amt(old(auth.supply), pp_denom) == amt(auth.bal[address], pp_denom) - amt(old(auth.bal[address]), pp_denom) + amt(auth.bal[modaddr("staked_tokens_pool")], pp_denom) - amt(old(auth.bal[modaddr("staked_tokens_pool")]), pp_denom)
+//@   ensures [pool] res.Code == 0 ==> amt(auth.bal[modaddr("staked_tokens_pool")], pp_denom) == amt(old(auth.bal[modaddr("staked_tokens_pool")]), pp_denom)
+//@   ensures [recipient] res.Code == 0 ==> amt(auth.bal[address], pp_denom) == amt(old(auth.bal[address]), pp_denom) + val(amount)
+//@   ensures [exact] amt(auth.supply, pp_denom) == amt(old(auth.supply), pp_denom) || amt(auth.supply, pp_denom) == amt(old(auth.supply), pp_denom) + val(amount)
+//@
+// C10: all collected fees leave the fee collector; the stake-denomination part goes to the proposer if it
+// is a known validator (else it stays in the pos module account); nothing is created or destroyed
+//@ func (k Keeper) rewardFromFees(ctx sdk.Ctx, previousProposer sdk.Address)
+//@   props C10 C02
+//@   uses bankinv valinv
+//@   requires modaddr("fee_collector") != modaddr("pos") && modaddr("pos") != previousProposer && modaddr("fee_collector") != previousProposer && modreg("pos") && modreg("fee_collector")
+//@   modifies acct.id, acct.next, acct.coins, acct.addr, auth.bal[modaddr("fee_collector")], auth.has[modaddr("fee_collector")], auth.bal[modaddr("pos")], auth.has[modaddr("pos")], auth.bal[previousProposer], auth.has[previousProposer]
+//@   ensures forall d Str :: amt(auth.bal[modaddr("fee_collector")], d) == 0
+//@   ensures pos.has[previousProposer] ==> amt(auth.bal[previousProposer], pp_denom) == amt(old(auth.bal[previousProposer]), pp_denom) + amt(old(auth.bal[modaddr("fee_collector")]), pp_denom) && amt(auth.bal[modaddr("pos")], pp_denom) == amt(old(auth.bal[modaddr("pos")]), pp_denom)
+//@   ensures !pos.has[previousProposer] ==> amt(auth.bal[modaddr("pos")], pp_denom) == amt(old(auth.bal[modaddr("pos")]), pp_denom) + amt(old(auth.bal[modaddr("fee_collector")]), pp_denom) && auth.bal[previousProposer] == old(auth.bal[previousProposer])
+//@   ensures auth.supply == old(auth.supply)
